@@ -22,6 +22,9 @@ type TokCfg struct {
 	Hostile  int // 0 plain class ids, 1 ids containing '/', 2 ids that spell voucher paths of this network
 	BurnProb float64
 	BadRecv  float64
+	// MissingClients leaves out that many one-directional clients of the full mesh (x has no client of y
+	// although y has one of x): sends, relay hops, acknowledgements over that edge fail or are refused.
+	MissingClients int
 }
 
 type heldNft struct {
@@ -46,10 +49,26 @@ type TokSim struct {
 
 // NewTokNetwork: full mesh of alphanumeric chains with allow-all routing.
 func NewTokNetwork(seed int64, rng *rand.Rand, n int) *vnet.Network {
+	return NewTokNetworkMissing(seed, rng, n, 0)
+}
+
+// NewTokNetworkMissing is NewTokNetwork without `missing` randomly chosen one-directional clients.
+func NewTokNetworkMissing(seed int64, rng *rand.Rand, n, missing int) *vnet.Network {
 	net := vnet.New(seed, rng, TokenChainNames[:n], 2, 4)
+	skip := map[[2]int]bool{}
+	for len(skip) < missing {
+		i, j := rng.Intn(n), rng.Intn(n)
+		if i != j {
+			skip[[2]int{i, j}] = true
+		}
+	}
 	for i := range net.Chains {
-		for j := i + 1; j < len(net.Chains); j++ {
-			net.Connect(net.Chains[i], net.Chains[j])
+		for j := range net.Chains {
+			if i != j && !skip[[2]int{i, j}] {
+				if err := net.CreateClient(net.Chains[i], net.Chains[j], vnet.DefaultClientCfg); err != nil {
+					panic(err)
+				}
+			}
 		}
 	}
 	for _, c := range net.Chains {
@@ -98,11 +117,13 @@ func (s *TokSim) route(src *vnet.Chain) (dst *vnet.Chain, relay string) {
 		dst = s.pick()
 	}
 	if len(cs) >= 3 && s.Rng.Intn(3) == 0 {
+		var rs []string
 		for _, r := range cs {
 			if r != src && r != dst {
-				return dst, r.Name
+				rs = append(rs, r.Name)
 			}
 		}
+		return dst, rs[s.Rng.Intn(len(rs))]
 	}
 	return dst, ""
 }
@@ -214,17 +235,23 @@ func (s *TokSim) Step() {
 		}
 		h := hs[s.Rng.Intn(len(hs))]
 		dst, relay := s.route(h.chain)
-		sender := h.owner
-		if s.Rng.Intn(15) == 0 {
-			// somebody else tries to send the token (must fail and change nothing)
+		if s.Rng.Intn(10) == 0 {
+			// somebody else tries to send the token, once towards every other chain so that both the lock and the
+			// burn (voucher going home) direction are tried: each must fail and change nothing
 			for _, a := range h.chain.Accounts[1:] {
-				if a != h.owner {
-					sender = a
-					break
+				if a == h.owner {
+					continue
 				}
+				for _, d := range s.chains() {
+					if d != h.chain && !w.Stop {
+						w.SendNft(h.chain, a, h.class, h.id, s.receiver(d), d.Name, "")
+					}
+				}
+				break
 			}
+			return
 		}
-		w.SendNft(h.chain, sender, h.class, h.id, s.receiver(dst), dst.Name, relay)
+		w.SendNft(h.chain, h.owner, h.class, h.id, s.receiver(dst), dst.Name, relay)
 	case x < 0.735 && s.Cfg.NFT:
 		// hostile: try to mint straight into a voucher class that exists on some chain (must be refused)
 		c := s.pick()
